@@ -31,10 +31,10 @@ func init() {
 		Level: "exploration",
 		Rule: "seeded SP->IdP runs: message kind x signed/unsigned x every boolean / optional setting x configuration and argument strings from the hostile pool (markup, quotes, whitespace incl. CR/LF/TAB, non-ASCII) x SP clock at drawn instants (year end, leap day, sub-second) in drawn non-UTC locations with skew; " +
 			"the receiver parses with a conforming front end and compares against the expected element skeleton (names, namespaces, attribute sets, schema order) and exact values; distinct = shape hash (kind, signed, optional settings, string classes, clock mode, outcome)",
-		Directed:   c15Directed,
-		Run:        c15Run,
-		MustHit:    []string{"kind=AuthnRequest", "kind=LogoutRequest", "kind=LogoutResponse", "signed", "unsigned", "hostile_strings", "non_utc_location", "issuer_fallback", "reqctx", "year_end", "subsecond_clock", "value_with_markup", "value_with_CR"},
-		RandomRuns: map[string]int{"quick": 1500, "thorough": 60000},
+		Directed:    c15Directed,
+		Run:         c15Run,
+		MustHit:     []string{"kind=AuthnRequest", "kind=LogoutRequest", "kind=LogoutResponse", "signed", "unsigned", "hostile_strings", "non_utc_location", "issuer_fallback", "reqctx", "year_end", "subsecond_clock", "value_with_markup", "value_with_CR"},
+		RandomRuns:  map[string]int{"quick": 1500, "thorough": 60000},
 		Assumptions: []string{"values are drawn from the XML character repertoire (NUL and other non-XML characters cannot be carried by XML at all)"},
 	})
 }
